@@ -42,6 +42,8 @@ func runC16(c *core.Ctx) {
 	startOp, stopOp := c16Splice(c, pkg)
 	c16Clone(c, pkg, startOp, stopOp)
 	c16Range(c, pkg)
+	c16Render(c, pkg)
+	c16ProbeRules(c, pkg)
 	c16Ticker(c, pkg)
 	c16DBRPs(c, pkg)
 }
@@ -951,4 +953,141 @@ func c09LoopNoExitErr(c *core.Ctx, rule, cons string, fn *core.Func, over string
 		return true
 	})
 	c.Check(found && bad == "", rule, cons, fn.Decl.Pos(), "the loop over %s must visit every element and may only be left with an error (loop found %v, exit %q)", over, found, bad)
+}
+
+// c16ProbeRules: F79, F80.
+func c16ProbeRules(c *core.Ctx, root *packages.Package) {
+	info := root.TypesInfo
+	c.Rule("C16.userOffset", "A7: F79: the offset given with a time dimension is kept in a Query field of its own (stored by Dimensions from the dimension's Offset), read by the store that alignGroup makes into the offset literal in SetStartTime, and copied by Clone")
+	c.Rule("C16.fillvalue", "A3: F80: every value stored into the statement's FillValue goes through a same-package conversion (a float64 becomes a value whose String() has no exponent): influxql prints the fill value with %v and InfluxQL has no exponent syntax")
+	// F79
+	dims := c.Need("C16.userOffset", "", "Query", "Dimensions")
+	sst := c.Need("C16.userOffset", "", "Query", "SetStartTime")
+	cl := c.Need("C16.userOffset", "", "Query", "Clone")
+	if dims != nil && sst != nil && cl != nil {
+		// field stored from <x>.Offset in Dimensions, other than the literal's Val
+		field := ""
+		ast.Inspect(dims.Decl.Body, func(nd ast.Node) bool {
+			as, ok := nd.(*ast.AssignStmt)
+			if !ok || len(as.Lhs) != 1 || len(as.Rhs) != 1 || !strings.HasSuffix(types.ExprString(as.Rhs[0]), ".Offset") {
+				return true
+			}
+			if sel, ok := ast.Unparen(as.Lhs[0]).(*ast.SelectorExpr); ok {
+				if s, ok := info.Selections[sel]; ok && s.Kind() == types.FieldVal {
+					if nn := core.NamedOf(s.Recv()); nn != nil && nn.Obj().Name() == "Query" {
+						field = sel.Sel.Name
+					}
+				}
+			}
+			return true
+		})
+		readInAlign := false
+		ast.Inspect(sst.Decl.Body, func(nd ast.Node) bool {
+			as, ok := nd.(*ast.AssignStmt)
+			if !ok || len(as.Lhs) != 1 || !strings.HasSuffix(types.ExprString(as.Lhs[0]), ".groupByOffsetDL.Val") {
+				return true
+			}
+			ast.Inspect(as.Rhs[0], func(k ast.Node) bool {
+				if sel, ok := k.(*ast.SelectorExpr); ok && field != "" && an.FieldSel(info, sel, "Query", field) {
+					readInAlign = true
+				}
+				return true
+			})
+			return true
+		})
+		copied := false
+		ast.Inspect(cl.Decl.Body, func(nd ast.Node) bool {
+			if kv, ok := nd.(*ast.KeyValueExpr); ok {
+				if k, ok := kv.Key.(*ast.Ident); ok && k.Name == field && field != "" {
+					copied = true
+				}
+			}
+			if as, ok := nd.(*ast.AssignStmt); ok {
+				for _, l := range as.Lhs {
+					if field != "" && an.FieldSel(info, l, "Query", field) {
+						copied = true
+					}
+				}
+			}
+			return true
+		})
+		c.Check(field != "" && readInAlign && copied, "C16.userOffset", "Query#alignGroup-offset", sst.Decl.Pos(), "the offset given with the time dimension does not survive alignGroup (kept in a field of its own: %q, read by the aligned store in SetStartTime: %v, copied by Clone: %v): groupBy(time(1m, -5s)).align().alignGroup() with every(30s) sends GROUP BY time(1m, 30s) where the documented result ('the alignment will occur first, and will be offset the specified amount after') is 25s; the historical queries are built from clones", field, readInAlign, copied)
+	}
+	// F80
+	n := 0
+	for _, f := range core.AllFuncs(root) {
+		ast.Inspect(f.Decl.Body, func(nd ast.Node) bool {
+			as, ok := nd.(*ast.AssignStmt)
+			if !ok {
+				return true
+			}
+			for i, l := range as.Lhs {
+				sel, ok := ast.Unparen(l).(*ast.SelectorExpr)
+				if !ok || sel.Sel.Name != "FillValue" || i >= len(as.Rhs) {
+					continue
+				}
+				if s, ok := info.Selections[sel]; !ok || core.NamedOf(s.Recv()) == nil || core.NamedOf(s.Recv()).Obj().Name() != "SelectStatement" {
+					continue
+				}
+				n++
+				conv := false
+				if call, ok := ast.Unparen(as.Rhs[i]).(*ast.CallExpr); ok {
+					if m := core.Callee(info, call); m != nil && m.Pkg() == root.Types {
+						conv = true
+					}
+				}
+				c.Check(conv, "C16.fillvalue", f.Name()+"#FillValue", as.Pos(), "the fill value is stored into the statement as it is (%s): a float64 is printed by influxql with %%v, so fill(1000000.0) is sent as fill(1e+06) and fill(0.00001) as fill(1e-05) — InfluxQL has no exponent syntax, the query is rejected on every tick and the task gets no data", types.ExprString(as.Rhs[i]))
+			}
+			return true
+		})
+	}
+	c.Floor("C16.fillvalue", "stores into SelectStatement.FillValue", n, 2)
+}
+
+// c16Render: F81 (known). The query that is sent is not the user's text: NewQuery parses it and every tick re-renders the parsed
+// statement with influxql's printer (Query.String → stmt.String()). So every literal kind must survive that printer. The rule
+// reads the printer of number literals in the influxql source that this build uses: strconv.FormatFloat with a fixed, non-negative
+// precision rounds the user's literal (three decimals in the pinned version).
+func c16Render(c *core.Ctx, root *packages.Package) {
+	c.Rule("C16.render", "A7: F81: the statement is re-rendered on every tick with influxql's printer (Query.String returns stmt.String()), so the printer of number literals in the influxql version of this build must print with the shortest exact representation (FormatFloat precision -1), not a fixed number of decimals")
+	fn := c.Need("C16.render", "", "Query", "String")
+	if fn == nil {
+		return
+	}
+	rerender := false
+	ast.Inspect(fn.Decl.Body, func(nd ast.Node) bool {
+		if ret, ok := nd.(*ast.ReturnStmt); ok && len(ret.Results) == 1 && strings.HasSuffix(types.ExprString(ret.Results[0]), ".stmt.String()") {
+			rerender = true
+		}
+		return true
+	})
+	dep := c.P.ByPath["github.com/influxdata/influxql"]
+	if dep == nil || len(dep.Syntax) == 0 {
+		c.Undecided("C16.render", "influxql.NumberLiteral.String", token.NoPos, "the influxql package was not loaded from source")
+		return
+	}
+	prec, found := "", false
+	var pos token.Pos
+	for _, file := range dep.Syntax {
+		for _, d := range file.Decls {
+			fd, ok := d.(*ast.FuncDecl)
+			if !ok || fd.Recv == nil || fd.Name.Name != "String" || !strings.Contains(types.ExprString(fd.Recv.List[0].Type), "NumberLiteral") {
+				continue
+			}
+			found = true
+			ast.Inspect(fd.Body, func(nd ast.Node) bool {
+				if call, ok := nd.(*ast.CallExpr); ok && len(call.Args) == 4 && strings.HasSuffix(types.ExprString(call.Fun), "FormatFloat") {
+					prec = types.ExprString(call.Args[2])
+					pos = call.Pos()
+				}
+				return true
+			})
+		}
+	}
+	if !found {
+		c.Undecided("C16.render", "influxql.NumberLiteral.String", token.NoPos, "NumberLiteral.String not found in the influxql source")
+		return
+	}
+	exact := prec == "-1" || prec == ""
+	c.Check(!rerender || exact, "C16.render", "Query.String#number-literals", fn.Decl.Pos(), "the query sent on every tick is the parsed statement printed by influxql, whose NumberLiteral.String uses FormatFloat(…, 'f', %s, 64) (%s): SELECT mean(usage) * 0.0001 … WHERE usage > 0.0005 is sent as mean(usage) * 0.000 … WHERE usage > 0.001 — the user's conditions are not kept intact, silently, for every literal with more than that many decimals", prec, c.P.Pos(pos))
 }
